@@ -201,7 +201,7 @@ def run_job(job, io):
     REGMOD.__dict__['__REGISTRY_LOCK'] = old_lock
 
     for lab, n in sim.probes.items():
-        if lab.startswith(('cb:', 'lock:', 't3:', 't8:', 't9:', 't10:')) or lab in ('callback-entered-with-engine-lock-held',):
+        if lab.startswith(('cb:', 'lock:', 't3:', 't5:', 't8:', 't9:', 't10:')) or lab in ('callback-entered-with-engine-lock-held',):
             probes[lab] += n
     py_lines = sum(n for lab, n in sim.probes.items() if lab.startswith('py:'))
     probes['py-line-yield-points'] += py_lines
@@ -313,6 +313,10 @@ def tpl_T1(sim, tape, viol, keys, desc, cb, job, mixed=False):
     for _ in range(n_tasks):
         progs.append([READ_OPS[tape.draw(len(READ_OPS), 'opname')] for _ in range(1 + tape.draw(4, 'n-ops'))])
     solo = solo_refs(scn, [n for p in progs for n in p])
+    if tape.draw(2, 't1-fresh-specs'):  # treespec objects nobody has used yet (see T5)
+        scn.spec = optree.tree_structure(scn.tree, **scn.kw)
+        scn.prefix_spec = optree.tree_structure(scn.tree, is_leaf=lambda x: id(x) in scn.stop_ids, **scn.kw)
+        scn.other_spec = optree.tree_structure(scn.other, **scn.kw)
     reg_log = []
     # a class created inside the run: its classification is not in the engine's type cache yet, so the metaclass
     # attribute hooks (meta.__getattr__) run as callbacks during this run's registration
@@ -920,6 +924,13 @@ def tpl_T5(sim, tape, viol, keys, desc, cb, job):
     n_tasks = 2 + tape.draw(2, 'n-tasks')
     progs = [[T5_OPS[tape.draw(len(T5_OPS), 'opname')] for _ in range(2 + tape.draw(3, 'n-ops'))] for _ in range(n_tasks)]
     solo = solo_refs(scn, [n for p in progs for n in p])
+    # the tasks share treespec OBJECTS that nobody has used yet (equal to the ones the solo references were computed on): whatever
+    # a treespec caches on first use is then built while another task is looking
+    if tape.draw(2, 't5-fresh-specs'):
+        scn.spec = optree.tree_structure(scn.tree, **scn.kw)
+        scn.prefix_spec = optree.tree_structure(scn.tree, is_leaf=lambda x: id(x) in scn.stop_ids, **scn.kw)
+        scn.other_spec = optree.tree_structure(scn.other, **scn.kw)
+        sim.probes['t5:fresh-treespecs'] += 1
     set_policy(sim, tape, job)
     results = []
     for i, p in enumerate(progs):
